@@ -957,8 +957,37 @@ namespace bloch::runtime {
             rc->isAbstract = clsNode->isAbstract;
             m_classTable[rc->name] = rc;
         }
-        // populate members
-        for (auto& clsNode : program.classes) {
+        // Populate members bases-first: a class copies its base's field layout and vtable, so the
+        // base must be complete whatever the order of the declarations in the source.
+        std::vector<compiler::ClassDeclaration*> basesFirst;
+        {
+            std::unordered_map<std::string, compiler::ClassDeclaration*> byName;
+            for (auto& c : program.classes)
+                if (c && c->typeParameters.empty())
+                    byName.emplace(c->name, c.get());
+            std::unordered_map<std::string, bool> placed;
+            std::function<void(compiler::ClassDeclaration*)> place =
+                [&](compiler::ClassDeclaration* c) {
+                    if (placed[c->name])
+                        return;
+                    placed[c->name] = true;
+                    std::string baseName;
+                    if (auto named = dynamic_cast<NamedType*>(c->baseType.get())) {
+                        if (named->typeArguments.empty() && !named->nameParts.empty())
+                            baseName = named->nameParts.back();
+                    } else if (!c->baseName.empty()) {
+                        baseName = c->baseName.back();
+                    }
+                    auto it = byName.find(baseName);
+                    if (it != byName.end())
+                        place(it->second);
+                    basesFirst.push_back(c);
+                };
+            for (auto& c : program.classes)
+                if (c && c->typeParameters.empty())
+                    place(c.get());
+        }
+        for (compiler::ClassDeclaration* clsNode : basesFirst) {
             if (!clsNode || !clsNode->typeParameters.empty())
                 continue;  // generic templates handled lazily
             RuntimeClass* rc = findClass(clsNode->name);
